@@ -764,3 +764,44 @@ BYTE_MODELS = [
     (R(r'num::to_(be|le)_bytes$'), m_to_bytes),
 ]
 GLOBAL_MODELS = BYTE_MODELS + GLOBAL_MODELS
+
+
+# ----------------------------------------------------------------------------- std operations that panic on overflow / out of range
+def _panic(ex, p, call, why):
+    p.events.append(Event('panic', why, call.args, None, call.span, call.depth))
+    ex.end_path(p, 'panic', why)
+
+
+def m_duration_arith(ex, p, call, k):
+    """<Duration as Sub/Add>::{sub,add}, Instant - Duration ...: std panics on overflow/underflow"""
+    meth = call.short.rsplit('::', 1)[-1]
+    a, b = call.args[0], call.args[1]
+    if not (isinstance(a, z3.ExprRef) and isinstance(b, z3.ExprRef) and z3.is_int(a) and z3.is_int(b)):
+        # operands not modelled as integers: the operation may still panic
+        q = p.clone()
+        _panic(ex, q, call, f'{call.short}: overflow/underflow panics')
+        return ex.opaque_call(p, call, k)
+    if meth in ('sub', 'sub_assign'):
+        if ex.feasible(p.pc, a < b):
+            q = p.clone()
+            q.pc.append(a < b)
+            _panic(ex, q, call, 'overflow when subtracting durations')
+        if ex.feasible(p.pc, a >= b):
+            p.pc.append(a >= b)
+            k(p, a - b)
+        return
+    k(p, a + b)
+
+
+def m_str_index(ex, p, call, k):
+    """str / slice indexing by a range whose validity is not known: may panic (out of range or not a char boundary)"""
+    q = p.clone()
+    _panic(ex, q, call, f'{call.short}: slice index may be out of range / not on a char boundary')
+    ex.opaque_call(p, call, k)
+
+
+PANIC_MODELS = [
+    (R(r'<(std::time::|core::time::)?(Duration|Instant) as (Sub|Add|SubAssign|AddAssign)>::(sub|add|sub_assign|add_assign)$'), m_duration_arith),
+    (R(r'<(str|String|\[.*\]|Vec) as Index(Mut)?>::index(_mut)?$|str::split_at$|slice::split_at$'), m_str_index),
+]
+GLOBAL_MODELS = GLOBAL_MODELS + PANIC_MODELS
